@@ -524,6 +524,31 @@ Proof.
   apply (replace_addr_key _ l s); [cbn [sv_addr]; rewrite Hsa; exact Hf|reflexivity].
 Qed.
 
+Lemma recompute_key i l : map key (recompute_probe i l) = map key l.
+Proof.
+  unfold recompute_probe. rewrite map_map. apply map_ext. intros s.
+  destruct (sv_probe s && negb (probe_attached i (sv_addr s))); reflexivity.
+Qed.
+
+Lemma recompute_length i l : length (recompute_probe i l) = length l.
+Proof. unfold recompute_probe. apply map_length. Qed.
+
+Lemma recompute_find i b : forall l,
+  find_addr b (recompute_probe i l) =
+  match find_addr b l with
+  | Some s => Some (if sv_probe s && negb (probe_attached i b)
+                    then {| sv_addr := sv_addr s; sv_idx := sv_idx s; sv_fail := sv_fail s; sv_retry := sv_retry s; sv_probe := false |}
+                    else s)
+  | None => None
+  end.
+Proof.
+  induction l as [|x r IH]; [reflexivity|]. cbn [recompute_probe map find_addr]. fold (recompute_probe i r).
+  assert (sv_addr (if sv_probe x && negb (probe_attached i (sv_addr x))
+                   then {| sv_addr := sv_addr x; sv_idx := sv_idx x; sv_fail := sv_fail x; sv_retry := sv_retry x; sv_probe := false |}
+                   else x) = sv_addr x) as Ha by (destruct (sv_probe x && negb (probe_attached i (sv_addr x))); reflexivity).
+  rewrite Ha. destruct (Z.eqb_spec (sv_addr x) b) as [->|Hne]; [reflexivity|exact IH].
+Qed.
+
 Lemma kv_key l l' : NoDup (map sv_addr l) -> map key l = map key l' -> forall b, kv b l = kv b l'.
 Proof.
   intros _ Hk b. unfold kv. revert l' Hk. induction l as [|x r IH]; intros l' Hk.
@@ -1091,7 +1116,7 @@ Proof.
     split; [apply (fresh_shape_key _ _ _ _ _ Hsh)|]. apply (fresh_accept m ch _ _ ch' obs Hwf Hag Hsh Hcfg).
   - destruct (at_probe a).
     + injection H as <- <-. cbn [ch_servers set_servers].
-      pose proof (clear_probe_key (at_server a) (ch_servers ch)) as Hck.
+      pose proof (recompute_key (ch_inflight ch) (ch_servers ch)) as Hck.
       split; [exact Hck|]. split; [reflexivity|].
       destruct Hag as (Hrot & Hnd & Hk). split; [exact Hrot|]. split; [exact Hnd|].
       intros b. rewrite Hk. symmetry. apply kv_key; [|exact Hck].
@@ -1192,6 +1217,7 @@ Definition accounting (ch : chan) (ev : event) (ch' : chan) : Prop :=
   | EvSend _ | EvAdvance _ | EvCancel => forall b, kv b (ch_servers ch') = kv b (ch_servers ch)
   | EvAnswer label =>
     forall a, find_attempt label (ch_inflight ch) = Some a -> kv_after_good (at_server a) (ch_servers ch) (ch_servers ch')
+  | EvConnLost a _ => kv_after_fail a (ch_servers ch) (ch_servers ch')
   | EvRefuse label _ _ | EvTimeout label _ =>
     forall a, find_attempt label (ch_inflight ch) = Some a -> kv_after_fail (at_server a) (ch_servers ch) (ch_servers ch')
   | EvSetServers addrs _ =>
@@ -1209,8 +1235,8 @@ Qed.
 Lemma mon_run_dones m l : mon_run m (map (fun a => ODone (at_label a) ARES_ECANCELLED) l) = Some m.
 Proof. induction l as [|a r IH]; [reflexivity|]. cbn [map mon_run mon_step]. exact IH. Qed.
 
-Lemma requeue_all_sound : forall vs ch cs n ch' obs m,
-  wf (ch_servers ch) -> agree m ch -> requeue_all ch vs cs n = Ok (ch', obs) ->
+Lemma requeue_all_sound st : forall vs ch cs n ch' obs m,
+  wf (ch_servers ch) -> agree m ch -> requeue_all st ch vs cs n = Ok (ch', obs) ->
   map key (ch_servers ch') = map key (ch_servers ch) /\ mon_run m obs = Some m /\ agree m ch'.
 Proof.
   induction vs as [|a r IH]; intros ch cs n ch' obs m Hwf Hag H.
@@ -1219,8 +1245,8 @@ Proof.
     set (ch0 := set_inflight ch (remove_attempt (at_label a) (ch_inflight ch))) in H.
     assert (wf (ch_servers ch0)) as Hwf0 by exact Hwf.
     assert (agree m ch0) as Hag0 by exact Hag.
-    destruct (requeue ch0 a ARES_SUCCESS (nth_choice cs n)) as [[ch1 o1]| |] eqn:Hr; cbn [bind fst snd] in H; try discriminate.
-    destruct (requeue_all ch1 r cs (if requeue_sends ch0 a then S n else n)) as [[ch2 o2]| |] eqn:Hr2; cbn [bind fst snd] in H; try discriminate.
+    destruct (requeue ch0 a st (nth_choice cs n)) as [[ch1 o1]| |] eqn:Hr; cbn [bind fst snd] in H; try discriminate.
+    destruct (requeue_all st ch1 r cs (if requeue_sends ch0 a then S n else n)) as [[ch2 o2]| |] eqn:Hr2; cbn [bind fst snd] in H; try discriminate.
     injection H as <- <-.
     destruct (requeue_sound _ _ _ _ _ _ m Hwf0 Hag0 Hr) as (Hk1 & Hrun1 & Hag1).
     assert (wf (ch_servers ch1)) as Hwf1 by (eapply wf_key; [symmetry; exact Hk1|exact Hwf0]).
@@ -1232,7 +1258,7 @@ Lemma step_sound ch ev ch' obs m :
   wf (ch_servers ch) -> agree m ch -> step ch ev = Ok (ch', obs) ->
   wf (ch_servers ch') /\ accounting ch ev ch' /\ exists m', mon_run m obs = Some m' /\ agree m' ch'.
 Proof.
-  intros Hwf Hag H. destruct ev as [c|label|label status c|label c|ms| |addrs cs]; cbn [step] in H.
+  intros Hwf Hag H. destruct ev as [c|label|label status c|label c|ms| |a0 cs0|addrs cs]; cbn [step] in H.
   - (* EvSend *)
     destruct (Nat.eqb (length (ch_servers ch)) 0).
     + injection H as <- <-. split; [exact Hwf|]. split; [intros b; reflexivity|].
@@ -1248,8 +1274,17 @@ Proof.
     destruct (find_attempt label (ch_inflight ch)) as [a|] eqn:Hfa; [|discriminate].
     injection H as <- <-.
     destruct (answer_sound ch label a m Hwf Hag) as (Hwf2 & Hkg & m' & Hrun & Hag2).
-    split; [exact Hwf2|]. split; [intros a0 Ha0; rewrite Hfa in Ha0; injection Ha0 as <-; exact Hkg|].
-    exists m'. split; [exact Hrun|exact Hag2].
+    cbn zeta in Hwf2, Hkg, Hag2. cbn [ch_servers ch_inflight set_inflight set_servers] in *.
+    set (l0 := clear_probe (at_server a) (server_set_good (at_server a) (ch_servers ch))) in *.
+    set (lf := if at_probe a then recompute_probe (remove_attempt label (ch_inflight ch)) l0 else l0).
+    assert (map key lf = map key l0) as Hkf by (unfold lf; destruct (at_probe a); [apply recompute_key|reflexivity]).
+    assert (forall b, kv b lf = kv b l0) as Hkvf.
+    { intros b. symmetry. apply kv_key; [apply (wf_addr _ Hwf2)|symmetry; exact Hkf]. }
+    split; [eapply wf_key; [symmetry; exact Hkf|exact Hwf2]|]. split.
+    + intros a0 Ha0. rewrite Hfa in Ha0. injection Ha0 as <-. destruct Hkg as (Hg1 & Hg2).
+      split; [intros b Hb; rewrite Hkvf; apply Hg1; exact Hb|rewrite Hkvf; exact Hg2].
+    + exists m'. split; [exact Hrun|]. destruct Hag2 as (Hr2 & Hn2 & Hk2).
+      split; [exact Hr2|]. split; [exact Hn2|]. intros b. cbn [ch_servers set_servers set_inflight]. rewrite Hkvf. apply Hk2.
   - (* EvRefuse *)
     destruct (find_attempt label (ch_inflight ch)) as [a|] eqn:Hfa; [|discriminate].
     destruct (fail_attempt_sound _ _ _ _ _ _ m Hwf Hag H) as (Hwf2 & Hkf & Hm).
@@ -1264,18 +1299,45 @@ Proof.
     exists m. split; [reflexivity|exact Hag].
   - (* EvCancel *)
     injection H as <- <-. cbn [ch_servers set_inflight set_servers].
-    pose proof (fold_clear_probe_key (ch_inflight ch) (ch_servers ch)) as Hck.
-    assert (forall b, kv b (fold_left (fun acc a => if at_probe a then clear_probe (at_server a) acc else acc)
-                                      (ch_inflight ch) (ch_servers ch)) = kv b (ch_servers ch)) as Hk2.
+    set (lc := if existsb at_probe (ch_inflight ch) then recompute_probe [] (ch_servers ch) else ch_servers ch).
+    assert (map key lc = map key (ch_servers ch)) as Hck
+      by (unfold lc; destruct (existsb at_probe (ch_inflight ch)); [apply recompute_key|reflexivity]).
+    assert (forall b, kv b lc = kv b (ch_servers ch)) as Hk2.
     { intros b. symmetry. apply kv_key; [apply (wf_addr _ Hwf)|symmetry; exact Hck]. }
     split; [eapply wf_key; [symmetry; exact Hck|exact Hwf]|]. split; [exact Hk2|].
     exists m. split; [apply mon_run_dones|].
     destruct Hag as (Hrot & Hnd & Hk). split; [exact Hrot|]. split; [exact Hnd|].
     intros b. cbn [ch_servers set_inflight set_servers]. rewrite Hk2. apply Hk.
+  - (* EvConnLost *)
+    destruct (find_addr a0 (ch_servers ch)) as [s0|] eqn:Hf0; [|discriminate].
+    destruct (server_increment_failures (ch_now ch) (ch_delay ch) a0 (ch_servers ch)) as [l1| |] eqn:Hinc;
+      cbn [bind] in H; try discriminate.
+    destruct (increment_spec _ _ _ _ _ Hwf Hinc) as (Hwf1 & Hoth & Hsame & Hnone).
+    destruct (requeue_all ARES_ECONNREFUSED (set_servers ch l1) (filter (fun x => at_server x =? a0) (ch_inflight ch)) cs0 0)
+      as [[ch2 o2]| |] eqn:Hrq; cbn [bind fst snd] in H; try discriminate.
+    injection H as <- <-.
+    assert (kv_after_fail a0 (ch_servers ch) l1) as Hkf.
+    { split.
+      - intros b Hb. unfold kv. rewrite (Hoth b Hb). reflexivity.
+      - unfold kv. rewrite Hf0. destruct (Hsame s0 Hf0) as (s' & Hf' & Hi' & Hfl' & _). rewrite Hf', Hi', Hfl'. reflexivity. }
+    destruct Hag as (Hrot & Hnd & Hk).
+    set (m1 := {| m_rotate := m_rotate m; m_servers := mon_update a0 (fun f => wrap64 (f + 1)) (m_servers m) |}).
+    assert (agree m1 (set_servers ch l1)) as Hag1.
+    { destruct Hkf as (Hkf1 & Hkf2). split; [exact Hrot|]. split; [cbn [m1 m_servers]; rewrite mon_update_addr; exact Hnd|].
+      intros b. cbn [m1 m_servers ch_servers set_servers]. rewrite mon_update_kv.
+      destruct (Z.eqb_spec b a0) as [->|Hb]; [rewrite Hkf2, Hk; reflexivity|rewrite Hkf1 by exact Hb; apply Hk]. }
+    assert (wf (ch_servers (set_servers ch l1))) as Hwf1' by exact Hwf1.
+    destruct (requeue_all_sound _ _ _ _ _ _ _ m1 Hwf1' Hag1 Hrq) as (Hkey & Hrun & Hag2).
+    cbn [ch_servers set_servers] in Hkey.
+    assert (forall b, kv b (ch_servers ch2) = kv b l1) as Hk2.
+    { intros b. apply kv_key; [|exact Hkey]. apply (nodup_addr_key l1); [symmetry; exact Hkey|apply (wf_addr _ Hwf1)]. }
+    split; [eapply wf_key; [symmetry; exact Hkey|exact Hwf1]|]. split.
+    + destruct Hkf as (Hkf1 & Hkf2). split; [intros b Hb; rewrite Hk2; apply Hkf1; exact Hb|rewrite Hk2; exact Hkf2].
+    + exists m1. split; [|exact Hag2]. cbn [mon_run mon_step]. fold m1. exact Hrun.
   - (* EvSetServers *)
     destruct (servers_update_wf (ch_servers ch) addrs Hwf) as (Hwfk & Hkv & Hperm).
     set (keep := servers_update (ch_servers ch) addrs) in *.
-    destruct (requeue_all (set_servers ch keep) (victims (servers_stale (ch_servers ch) addrs) (ch_inflight ch)) cs 0)
+    destruct (requeue_all ARES_SUCCESS (set_servers ch keep) (victims (servers_stale (ch_servers ch) addrs) (ch_inflight ch)) cs 0)
       as [[ch2 o2]| |] eqn:Hrq; cbn [bind fst snd] in H; try discriminate.
     injection H as <- <-.
     destruct Hag as (Hrot & Hnd & Hk).
@@ -1285,7 +1347,7 @@ Proof.
       - cbn [m1 m_servers]. rewrite mon_build_addr. apply (dedup_nodup addrs []).
       - intros b. cbn [m1 m_servers ch_servers set_servers]. rewrite mon_build_kv, Hkv. apply expected_kv. exact Hk. }
     assert (wf (ch_servers (set_servers ch keep))) as Hwf1 by exact Hwfk.
-    destruct (requeue_all_sound _ _ _ _ _ _ m1 Hwf1 Hag1 Hrq) as (Hkey & Hrun & Hag2).
+    destruct (requeue_all_sound _ _ _ _ _ _ _ m1 Hwf1 Hag1 Hrq) as (Hkey & Hrun & Hag2).
     cbn [ch_servers set_servers] in Hkey.
     assert (forall b, kv b (ch_servers ch2) = kv b keep) as Hk2.
     { intros b. apply kv_key; [|exact Hkey]. apply (nodup_addr_key keep); [symmetry; exact Hkey|apply (wf_addr _ Hwfk)]. }
@@ -1757,18 +1819,21 @@ Proof.
     exists bm'. split; [exact Hrun|]. split; [constructor; assumption|]. split; [exact Hmono|]. split; [exact Hsub|exact Haddr].
   - destruct (at_probe a) eqn:Hp.
     + injection H as <- <-. exists bm. split; [reflexivity|].
-      pose proof (clear_probe_key (at_server a) (ch_servers ch)) as Hck.
+      pose proof (recompute_key (ch_inflight ch) (ch_servers ch)) as Hck.
       split; [|split; [cbn; lia|split; [intros x Hx; exact Hx|]]].
       * constructor; cbn [ch_servers ch_inflight ch_next_label ch_tries set_servers]; try assumption.
         -- eapply wf_key; [symmetry; exact Hck|exact Hwf].
-        -- intros b s Hfb Hpb _. cbn [ch_servers ch_inflight set_servers] in Hfb |- *. rewrite clear_probe_find in Hfb.
+        -- intros b s Hfb Hpb _. cbn [ch_servers ch_inflight set_servers] in Hfb |- *. rewrite recompute_find in Hfb.
            destruct (find_addr b (ch_servers ch)) as [s0|] eqn:Hf0; [|discriminate]. injection Hfb as <-.
-           destruct (Z.eqb_spec b (at_server a)) as [->|Hne]; [discriminate|].
-           apply (Hpi b s0 Hf0 Hpb). congruence.
-        -- rewrite Hns. rewrite <- (map_length key (clear_probe _ _)), Hck, map_length. reflexivity.
+           destruct (sv_probe s0 && negb (probe_attached (ch_inflight ch) b)) eqn:Hc; [discriminate|].
+           rewrite Hpb in Hc. cbn [andb] in Hc. apply negb_false_iff in Hc.
+           unfold probe_attached in Hc. apply existsb_exists in Hc. destruct Hc as (x & Hx & Hxc).
+           apply andb_true_iff in Hxc. destruct Hxc as (Hxp & Hxs). apply Z.eqb_eq in Hxs.
+           exists x. split; [exact Hx|split; assumption].
+        -- rewrite Hns, recompute_length. reflexivity.
       * cbn [ch_servers set_servers].
-        replace (map sv_addr (clear_probe (at_server a) (ch_servers ch)))
-          with (map (fun k => fst (fst k)) (map key (clear_probe (at_server a) (ch_servers ch)))) by (rewrite map_map; reflexivity).
+        replace (map sv_addr (recompute_probe (ch_inflight ch) (ch_servers ch)))
+          with (map (fun k => fst (fst k)) (map key (recompute_probe (ch_inflight ch) (ch_servers ch)))) by (rewrite map_map; reflexivity).
         rewrite Hck, map_map. reflexivity.
     + injection H as <- <-.
       exists bm. split.
@@ -1944,27 +2009,27 @@ Proof.
   apply Hn. rewrite <- Hxs, Hys. apply in_map. exact Hs2.
 Qed.
 
-Lemma requeue_all_inv : forall vs bm ch cs n ch' obs,
+Lemma requeue_all_inv st : forall vs bm ch cs n ch' obs,
   inv bm ch -> NoDup (map at_label vs) ->
-  (forall v, In v vs -> In v (ch_inflight ch) /\ find_addr (at_server v) (ch_servers ch) = None) ->
-  requeue_all ch vs cs n = Ok (ch', obs) ->
+  (forall v, In v vs -> In v (ch_inflight ch)) ->
+  requeue_all st ch vs cs n = Ok (ch', obs) ->
   exists bm', bmon_run bm obs = Some bm' /\ inv bm' ch'.
 Proof.
   induction vs as [|v r IH]; intros bm ch cs n ch' obs Hinv Hnd Hvs H.
   - injection H as <- <-. exists bm. split; [reflexivity|exact Hinv].
   - cbn [requeue_all] in H.
     set (ch0 := set_inflight ch (remove_attempt (at_label v) (ch_inflight ch))) in H.
-    destruct (requeue ch0 v ARES_SUCCESS (nth_choice cs n)) as [[ch1 o1]| |] eqn:Hr; cbn [bind fst snd] in H; try discriminate.
-    destruct (requeue_all ch1 r cs (if requeue_sends ch0 v then S n else n)) as [[ch2 o2]| |] eqn:Hr2; cbn [bind fst snd] in H; try discriminate.
+    destruct (requeue ch0 v st (nth_choice cs n)) as [[ch1 o1]| |] eqn:Hr; cbn [bind fst snd] in H; try discriminate.
+    destruct (requeue_all st ch1 r cs (if requeue_sends ch0 v then S n else n)) as [[ch2 o2]| |] eqn:Hr2; cbn [bind fst snd] in H; try discriminate.
     injection H as <- <-.
     destruct Hinv as [Hwf Hlab Hpi Htr Hns Hcnt Htx].
-    destruct (Hvs v (or_introl eq_refl)) as (Hvin & Hvnone).
+    pose proof (Hvs v (or_introl eq_refl)) as Hvin.
     destruct (labels_ok_remove ch (at_label v) Hlab) as (Hlab0 & Hfresh).
     assert (probe_inv_but (if at_probe v then Some (at_server v) else None) ch0) as Hpi0.
-    { intros b s Hfb Hpb _. destruct (Hpi b s Hfb Hpb ltac:(discriminate)) as (x & Hx & Hxp & Hxs).
+    { intros b s Hfb Hpb Hne. destruct (Hpi b s Hfb Hpb ltac:(discriminate)) as (x & Hx & Hxp & Hxs).
       exists x. split; [|split; assumption]. apply witness_survives; try assumption.
-      intros ->. cbn [ch_servers set_inflight ch0] in Hfb. congruence. }
-    destruct (requeue_inv bm ch0 v ARES_SUCCESS (nth_choice cs n) ch1 o1 Hwf Hlab0 Hpi0 Htr Hns) as (bm1 & Hrun1 & Hinv1 & _ & Hsub & Haddr).
+      intros ->. rewrite Hxp in Hne. apply Hne. rewrite Hxs. reflexivity. }
+    destruct (requeue_inv bm ch0 v st (nth_choice cs n) ch1 o1 Hwf Hlab0 Hpi0 Htr Hns) as (bm1 & Hrun1 & Hinv1 & _ & Hsub & Haddr).
     + intros x Hx Hpx. apply Hcnt; [eapply remove_attempt_in; exact Hx|exact Hpx].
     + exact Htx.
     + destruct Hlab as (_ & Hlt). apply Hlt. exact Hvin.
@@ -1973,17 +2038,16 @@ Proof.
     + exact Hr.
     + cbn [map] in Hnd. inversion Hnd as [|? ? Hvn Hndr]; subst.
       destruct (IH bm1 ch1 cs (if requeue_sends ch0 v then S n else n) ch2 o2 Hinv1 Hndr) as (bm2 & Hrun2 & Hinv2); [|exact Hr2|].
-      * intros v2 Hv2. destruct (Hvs v2 (or_intror Hv2)) as (Hv2in & Hv2none). split.
-        -- apply Hsub. cbn [ch_inflight set_inflight ch0]. apply remove_attempt_keeps; [exact Hv2in|].
-           intros He. apply Hvn. rewrite <- He. apply in_map. exact Hv2.
-        -- apply find_addr_none. rewrite Haddr. apply find_addr_none. exact Hv2none.
+      * intros v2 Hv2. pose proof (Hvs v2 (or_intror Hv2)) as Hv2in.
+        apply Hsub. cbn [ch_inflight set_inflight ch0]. apply remove_attempt_keeps; [exact Hv2in|].
+        intros He. apply Hvn. rewrite <- He. apply in_map. exact Hv2.
       * exists bm2. split; [|exact Hinv2]. rewrite bmon_run_app, Hrun1. exact Hrun2.
 Qed.
 
 Lemma step_inv bm ch ev ch' obs :
   inv bm ch -> step ch ev = Ok (ch', obs) -> exists bm', bmon_run bm obs = Some bm' /\ inv bm' ch'.
 Proof.
-  intros Hinv H. destruct ev as [c|label|label status c|label c|ms| |addrs cs]; cbn [step] in H.
+  intros Hinv H. destruct ev as [c|label|label status c|label c|ms| |a0 cs0|addrs cs]; cbn [step] in H.
   - (* EvSend *)
     destruct Hinv as [Hwf Hlab Hpi Htr Hns Hcnt Htx]. destruct Hlab as (Hnd & Hlt).
     destruct (Nat.eqb_spec (length (ch_servers ch)) 0) as [He|Hne].
@@ -2014,16 +2078,27 @@ Proof.
     + rewrite bmon_run_app. cbn [ch_servers set_inflight].
       destruct (find_addr (at_server a) (ch_servers ch)); destruct (at_probe a); reflexivity.
     + pose proof (clear_probe_key (at_server a) (server_set_good (at_server a) (ch_servers ch))) as Hck.
+      set (l0 := clear_probe (at_server a) (server_set_good (at_server a) (ch_servers ch))) in *.
+      set (infl := remove_attempt (at_label a) (ch_inflight ch)).
+      assert (map key (if at_probe a then recompute_probe infl l0 else l0) = map key l0) as Hkf
+        by (destruct (at_probe a); [apply recompute_key|reflexivity]).
       constructor; cbn [ch_servers ch_inflight ch_next_label ch_tries set_servers set_inflight]; try assumption.
-      * eapply wf_key; [symmetry; exact Hck|exact Hwf1].
-      * intros b s Hfb Hpb _. cbn [ch_servers ch_inflight set_servers set_inflight] in Hfb |- *.
-        rewrite clear_probe_find in Hfb.
-        destruct (find_addr b (server_set_good (at_server a) (ch_servers ch))) as [s1|] eqn:Hf1; [|discriminate].
-        injection Hfb as <-. destruct (Z.eqb_spec b (at_server a)) as [->|Hb]; [discriminate|].
-        rewrite (Hoth b Hb) in Hf1.
-        destruct (Hpi b s1 Hf1 Hpb ltac:(discriminate)) as (x & Hx & Hxp & Hxs).
-        exists x. split; [|split; assumption]. apply witness_survives; try assumption. intros ->. congruence.
-      * rewrite clear_probe_length, set_good_length. exact Hns.
+      * eapply wf_key; [symmetry; rewrite Hkf; exact Hck|exact Hwf1].
+      * intros b s Hfb Hpb _. cbn [ch_servers ch_inflight set_servers set_inflight] in Hfb |- *. fold infl in Hfb |- *. fold l0 in Hfb.
+        destruct (at_probe a) eqn:Hpa.
+        -- rewrite recompute_find in Hfb. destruct (find_addr b l0) as [s0|]; [|discriminate]. injection Hfb as <-.
+           destruct (sv_probe s0 && negb (probe_attached infl b)) eqn:Hc; [discriminate|].
+           rewrite Hpb in Hc. cbn [andb] in Hc. apply negb_false_iff in Hc.
+           unfold probe_attached in Hc. apply existsb_exists in Hc. destruct Hc as (x & Hx & Hxc).
+           apply andb_true_iff in Hxc. destruct Hxc as (Hxp & Hxs). apply Z.eqb_eq in Hxs.
+           exists x. split; [exact Hx|split; assumption].
+        -- unfold l0 in Hfb. rewrite clear_probe_find in Hfb.
+           destruct (find_addr b (server_set_good (at_server a) (ch_servers ch))) as [s1|] eqn:Hf1; [|discriminate].
+           injection Hfb as <-. destruct (Z.eqb_spec b (at_server a)) as [->|Hb]; [discriminate|].
+           rewrite (Hoth b Hb) in Hf1.
+           destruct (Hpi b s1 Hf1 Hpb ltac:(discriminate)) as (x & Hx & Hxp & Hxs).
+           exists x. split; [|split; assumption]. apply witness_survives; try assumption. intros ->. congruence.
+      * rewrite <- (map_length key), Hkf, map_length. unfold l0. rewrite clear_probe_length, set_good_length. exact Hns.
       * intros x Hx Hpx. apply Hcnt; [eapply remove_attempt_in; exact Hx|exact Hpx].
   - (* EvRefuse *)
     destruct (find_attempt label (ch_inflight ch)) as [a|] eqn:Hfa; [|discriminate].
@@ -2036,28 +2111,55 @@ Proof.
     injection H as <- <-. exists bm. split; [reflexivity|]. destruct Hinv. constructor; assumption.
   - (* EvCancel *)
     injection H as <- <-. destruct Hinv as [Hwf Hlab Hpi Htr Hns Hcnt Htx].
-    pose proof (fold_clear_probe_key (ch_inflight ch) (ch_servers ch)) as Hck.
+    set (lc := if existsb at_probe (ch_inflight ch) then recompute_probe [] (ch_servers ch) else ch_servers ch).
+    assert (map key lc = map key (ch_servers ch)) as Hck
+      by (unfold lc; destruct (existsb at_probe (ch_inflight ch)); [apply recompute_key|reflexivity]).
     exists bm. split.
     + induction (sort_by_label (filter (fun a => negb (at_probe a)) (ch_inflight ch))) as [|a r IHr]; [reflexivity|exact IHr].
     + constructor; cbn [ch_servers ch_inflight ch_next_label ch_tries set_servers set_inflight]; try assumption.
       * eapply wf_key; [symmetry; exact Hck|exact Hwf].
       * split; [constructor|intros a []].
       * intros b s Hfb Hpb _. cbn [ch_servers ch_inflight set_servers set_inflight] in Hfb |- *. exfalso.
-        rewrite fold_clear_find in Hfb. destruct (find_addr b (ch_servers ch)) as [s0|] eqn:Hf0; [|discriminate].
-        injection Hfb as <-.
-        destruct (existsb (fun a => at_probe a && (at_server a =? b)) (ch_inflight ch)) eqn:Hex; [discriminate|].
-        destruct (Hpi b s0 Hf0 Hpb ltac:(discriminate)) as (x & Hx & Hxp & Hxs).
-        assert (existsb (fun a => at_probe a && (at_server a =? b)) (ch_inflight ch) = true) as Ht.
-        { apply existsb_exists. exists x. split; [exact Hx|]. rewrite Hxp, Hxs, Z.eqb_refl. reflexivity. }
-        congruence.
-      * rewrite Hns. rewrite <- (map_length key (fold_left _ _ _)), Hck, map_length. reflexivity.
+        fold lc in Hfb. unfold lc in Hfb.
+        destruct (existsb at_probe (ch_inflight ch)) eqn:Hex.
+        -- rewrite recompute_find in Hfb. destruct (find_addr b (ch_servers ch)) as [s0|]; [|discriminate].
+           injection Hfb as <-. unfold probe_attached in Hpb. cbn [existsb negb] in Hpb. rewrite andb_true_r in Hpb.
+           destruct (sv_probe s0) eqn:E; cbn [sv_probe] in Hpb; congruence.
+        -- destruct (Hpi b s Hfb Hpb ltac:(discriminate)) as (x & Hx & Hxp & _).
+           assert (existsb at_probe (ch_inflight ch) = true) as Ht by (apply existsb_exists; exists x; split; assumption).
+           congruence.
+      * fold lc. rewrite Hns. rewrite <- (map_length key lc), Hck, map_length. reflexivity.
       * intros a [].
+  - (* EvConnLost *)
+    destruct Hinv as [Hwf Hlab Hpi Htr Hns Hcnt Htx].
+    destruct (find_addr a0 (ch_servers ch)) as [s0|] eqn:Hf0; [|discriminate].
+    destruct (server_increment_failures (ch_now ch) (ch_delay ch) a0 (ch_servers ch)) as [l1| |] eqn:Hinc;
+      cbn [bind] in H; try discriminate.
+    destruct (increment_spec _ _ _ _ _ Hwf Hinc) as (Hwf1 & Hoth & Hsame & Hnone).
+    set (vs := filter (fun x => at_server x =? a0) (ch_inflight ch)) in *.
+    destruct (requeue_all ARES_ECONNREFUSED (set_servers ch l1) vs cs0 0) as [[ch2 o2]| |] eqn:Hrq; cbn [bind fst snd] in H; try discriminate.
+    injection H as <- <-.
+    assert (inv bm (set_servers ch l1)) as Hinv1.
+    { constructor; cbn [ch_servers ch_inflight ch_next_label ch_tries set_servers]; try assumption.
+      - intros b s1 Hfb Hpb _. cbn [ch_servers ch_inflight set_servers] in Hfb |- *.
+        assert (exists s2, find_addr b (ch_servers ch) = Some s2 /\ sv_probe s2 = true) as (s2 & Hf2 & Hp2).
+        { destruct (Z.eq_dec b a0) as [->|Hb].
+          - destruct (Hsame s0 Hf0) as (s' & Hf' & _ & _ & Hpr). rewrite Hf' in Hfb. injection Hfb as <-.
+            exists s0. split; [exact Hf0|congruence].
+          - rewrite (Hoth b Hb) in Hfb. exists s1. split; assumption. }
+        apply (Hpi b s2 Hf2 Hp2). discriminate.
+      - rewrite (increment_length _ _ _ _ _ Hinc). exact Hns. }
+    destruct (requeue_all_inv ARES_ECONNREFUSED vs bm (set_servers ch l1) cs0 0 ch2 o2 Hinv1) as (bm2 & Hrun & Hinv2).
+    + apply nodup_map_filter. apply Hlab.
+    + intros v Hv. apply filter_In in Hv. apply Hv.
+    + exact Hrq.
+    + exists bm2. split; [|exact Hinv2]. cbn [bmon_run bmon_step]. exact Hrun.
   - (* EvSetServers *)
     destruct Hinv as [Hwf Hlab Hpi Htr Hns Hcnt Htx].
     destruct (servers_update_wf (ch_servers ch) addrs Hwf) as (Hwfk & Hkv & Hperm).
     set (keep := servers_update (ch_servers ch) addrs) in *.
     set (vs := victims (servers_stale (ch_servers ch) addrs) (ch_inflight ch)) in *.
-    destruct (requeue_all (set_servers ch keep) vs cs 0) as [[ch2 o2]| |] eqn:Hrq; cbn [bind fst snd] in H; try discriminate.
+    destruct (requeue_all ARES_SUCCESS (set_servers ch keep) vs cs 0) as [[ch2 o2]| |] eqn:Hrq; cbn [bind fst snd] in H; try discriminate.
     injection H as <- <-.
     set (bm1 := {| b_tries := b_tries bm; b_nsrv := length (dedup [] addrs); b_txs := b_txs bm |}).
     assert (inv bm1 (set_servers ch keep)) as Hinv1.
@@ -2070,14 +2172,9 @@ Proof.
     destruct (dedup_nodup addrs []) as (Hndd & _).
     destruct (update_loop_spec (dedup [] addrs) 0 (ch_servers ch) Hndd (wf_addr _ Hwf) (lt_sorted_le _ (wf_sorted _ Hwf)) (wf_range _ Hwf))
       as (Hnd1 & _ & _ & _).
-    destruct (requeue_all_inv vs bm1 (set_servers ch keep) cs 0 ch2 o2 Hinv1) as (bm2 & Hrun & Hinv2).
+    destruct (requeue_all_inv ARES_SUCCESS vs bm1 (set_servers ch keep) cs 0 ch2 o2 Hinv1) as (bm2 & Hrun & Hinv2).
     + apply victims_nodup; [apply nodup_map_filter; exact Hnd1|apply Hlab].
-    + intros v Hv. destruct (victims_in _ _ _ Hv) as (Hvin & st & Hst & Hvs). split; [exact Hvin|].
-      cbn [ch_servers set_servers]. apply find_addr_none. intros Hin.
-      apply (Permutation_in _ Hperm) in Hin. apply dedup_in in Hin. destruct Hin as (Hin & _).
-      unfold servers_stale in Hst. apply filter_In in Hst. destruct Hst as (_ & Hcfg).
-      apply negb_true_iff in Hcfg. unfold configured in Hcfg.
-      assert (existsb (Z.eqb (sv_addr st)) addrs = true) as Ht by (apply existsb_eqb_in; rewrite <- Hvs; exact Hin). congruence.
+    + intros v Hv. destruct (victims_in _ _ _ Hv) as (Hvin & _). exact Hvin.
     + exact Hrq.
     + exists bm2. split; [|exact Hinv2]. cbn [bmon_run bmon_step]. fold bm1. exact Hrun.
 Qed.
@@ -2333,4 +2430,108 @@ Proof.
   eexists. eexists. split; [vm_compute; reflexivity|].
   split; [eexists; vm_compute; reflexivity|]. split; [eexists; vm_compute; reflexivity|].
   vm_compute. reflexivity.
+Qed.
+
+(* ------------------------------------------------------------------------------------ *)
+(* A lost connection with queries outstanding demotes the server at once                 *)
+(* ------------------------------------------------------------------------------------ *)
+Definition quiet (l : list obs) : Prop := forall a b, ~ In (OConnLost a b) l.
+
+Lemma dmon_quiet : forall l, quiet l -> dmon_run None l = Some None.
+Proof.
+  induction l as [|o r IH]; intros Hq; [reflexivity|]. cbn [dmon_run].
+  assert (dmon_step None o = Some None) as ->.
+  { destruct o; try reflexivity. exfalso. eapply Hq. left. reflexivity. }
+  apply IH. intros a b Hin. apply (Hq a b). right. exact Hin.
+Qed.
+
+Lemma quiet_app l1 l2 : quiet l1 -> quiet l2 -> quiet (l1 ++ l2).
+Proof. intros H1 H2 a b Hin. apply in_app_iff in Hin. destruct Hin as [H|H]; [exact (H1 a b H)|exact (H2 a b H)]. Qed.
+
+Lemma send_fresh_quiet ch label try err c ch' obs : send_fresh ch label try err c = Ok (ch', obs) -> quiet obs.
+Proof.
+  intros H. destruct (send_fresh_struct _ _ _ _ _ _ _ H) as (Hst & _).
+  inversion Hst; subst; intros a b Hin; cbn [In] in Hin; intuition discriminate.
+Qed.
+
+Lemma requeue_quiet ch a st c ch' obs : requeue ch a st c = Ok (ch', obs) -> quiet obs.
+Proof.
+  unfold requeue. destruct (requeue_sends ch a); [apply send_fresh_quiet|].
+  destruct (at_probe a); intros H; injection H as <- <-; intros x y Hin; cbn [In] in Hin; intuition discriminate.
+Qed.
+
+Lemma requeue_all_quiet st : forall vs ch cs n ch' obs, requeue_all st ch vs cs n = Ok (ch', obs) -> quiet obs.
+Proof.
+  induction vs as [|v r IH]; intros ch cs n ch' obs H.
+  - injection H as <- <-. intros a b [].
+  - cbn [requeue_all] in H.
+    destruct (requeue _ v st (nth_choice cs n)) as [[ch1 o1]| |] eqn:Hr; cbn [bind fst snd] in H; try discriminate.
+    destruct (requeue_all st ch1 r cs _) as [[ch2 o2]| |] eqn:Hr2; cbn [bind fst snd] in H; try discriminate.
+    injection H as <- <-. apply quiet_app; [eapply requeue_quiet; exact Hr|eapply IH; exact Hr2].
+Qed.
+
+Lemma fail_attempt_quiet ch a st c ch' obs : fail_attempt ch a st c = Ok (ch', obs) -> quiet obs.
+Proof.
+  unfold fail_attempt. intros H.
+  destruct (server_increment_failures _ _ _ _) as [l1| |]; cbn [bind] in H; try discriminate.
+  destruct (requeue _ a st c) as [[ch2 o2]| |] eqn:Hr; cbn [bind fst snd] in H; try discriminate.
+  injection H as <- <-. apply quiet_app; [|eapply requeue_quiet; exact Hr].
+  destruct (find_addr _ _); intros x y Hin; cbn [In] in Hin; intuition discriminate.
+Qed.
+
+Lemma step_dmon ch ev ch' obs : step ch ev = Ok (ch', obs) -> dmon_run None obs = Some None.
+Proof.
+  intros H. destruct ev as [c|label|label status c|label c|ms| |a0 cs0|addrs cs]; cbn [step] in H.
+  - apply dmon_quiet. destruct (Nat.eqb _ 0).
+    + injection H as <- <-. intros a b Hin; cbn [In] in Hin; intuition discriminate.
+    + eapply send_fresh_quiet; exact H.
+  - destruct (find_attempt label (ch_inflight ch)) as [a|]; [|discriminate]. injection H as <- <-.
+    apply dmon_quiet. apply quiet_app.
+    + destruct (find_addr _ _); intros x y Hin; cbn [In] in Hin; intuition discriminate.
+    + destruct (at_probe a); intros x y Hin; cbn [In] in Hin; intuition discriminate.
+  - destruct (find_attempt label (ch_inflight ch)) as [a|]; [|discriminate].
+    apply dmon_quiet. eapply fail_attempt_quiet; exact H.
+  - destruct (find_attempt label (ch_inflight ch)) as [a|]; [|discriminate].
+    apply dmon_quiet. eapply fail_attempt_quiet; exact H.
+  - destruct (c_timeadd _ _ _); cbn [bind] in H; try discriminate. injection H as <- <-. reflexivity.
+  - injection H as <- <-. apply dmon_quiet. intros a b Hin. apply in_map_iff in Hin. destruct Hin as (x & Hx & _). discriminate.
+  - destruct (find_addr a0 (ch_servers ch)); [|discriminate].
+    destruct (server_increment_failures _ _ _ _) as [l1| |]; cbn [bind] in H; try discriminate.
+    destruct (requeue_all _ _ _ _ _) as [[ch2 o2]| |] eqn:Hrq; cbn [bind fst snd] in H; try discriminate.
+    injection H as <- <-. pose proof (dmon_quiet _ (requeue_all_quiet _ _ _ _ _ _ _ Hrq)) as Hq.
+    cbn [dmon_run dmon_step]. destruct (negb _); cbn [dmon_run dmon_step]; [rewrite Z.eqb_refl|]; exact Hq.
+  - destruct (requeue_all _ _ _ _ _) as [[ch2 o2]| |] eqn:Hrq; cbn [bind fst snd] in H; try discriminate.
+    injection H as <- <-. cbn [dmon_run dmon_step]. apply dmon_quiet. eapply requeue_all_quiet; exact Hrq.
+Qed.
+
+Lemma dmon_run_app : forall a b, dmon_run None a = Some None -> dmon_run None (a ++ b) = dmon_run None b.
+Proof.
+  assert (forall a d b, dmon_run d (a ++ b) = match dmon_run d a with Some d' => dmon_run d' b | None => None end) as Happ.
+  { induction a as [|o r IH]; intros d b; [reflexivity|]. cbn [app dmon_run]. destruct (dmon_step d o); [apply IH|reflexivity]. }
+  intros a b H. rewrite Happ, H. reflexivity.
+Qed.
+
+(* trace level: whenever the transport loses a connection with queries outstanding, the very
+   next observation is the failure callback of that server - for all histories *)
+Lemma demotion_accepts : forall evs ch ch' obs, run ch evs = Ok (ch', obs) -> dmon_run None obs = Some None.
+Proof.
+  induction evs as [|e r IH]; intros ch ch' obs H.
+  - injection H as <- <-. reflexivity.
+  - cbn [run] in H.
+    destruct (step ch e) as [[ch1 o1]| |] eqn:Hs; cbn [bind fst snd] in H; try discriminate.
+    destruct (run ch1 r) as [[ch2 o2]| |] eqn:Hr; cbn [bind fst snd] in H; try discriminate.
+    injection H as <- <-. rewrite (dmon_run_app _ _ (step_dmon _ _ _ _ Hs)). eapply IH. exact Hr.
+Qed.
+
+(* and the connection-loss step itself: one demotion, then the re-queued attempts (which
+   C09_trace_accepted judges against the demoted table) *)
+Lemma connlost_shape ch a cs ch' obs :
+  step ch (EvConnLost a cs) = Ok (ch', obs) ->
+  exists out rest, obs = OConnLost a out :: OFail a :: rest /\ quiet rest /\
+    out = negb (is_nil (filter (fun x => at_server x =? a) (ch_inflight ch))).
+Proof.
+  intros H. cbn [step] in H. destruct (find_addr a (ch_servers ch)); [|discriminate].
+  destruct (server_increment_failures _ _ _ _) as [l1| |]; cbn [bind] in H; try discriminate.
+  destruct (requeue_all _ _ _ _ _) as [[ch2 o2]| |] eqn:Hrq; cbn [bind fst snd] in H; try discriminate.
+  injection H as <- <-. eexists. eexists. split; [reflexivity|]. split; [eapply requeue_all_quiet; exact Hrq|reflexivity].
 Qed.
